@@ -24,7 +24,7 @@ AddPlain(f, n) ==
   /\ log' = Append(log, Batch(f, Dense(next, n), -1, FALSE, ""))
   /\ next' = next + n /\ UNCHANGED open
 AddHoley(f, n) ==
-  /\ WithHoles /\ n >= 2 /\ next + n + 1 <= MaxOff /\ f \in {"v2", "v0", "v1"}
+  /\ WithHoles /\ n >= 2 /\ next + n + 1 <= MaxOff /\ f \in {"v2", "v0", "v1", "v0w", "v1w"}
   /\ log' = Append(log, Batch(f, Holey(next, n), -1, FALSE, ""))
   /\ next' = next + n + 1 /\ UNCHANGED open
 \* a gap between batches (a whole batch compacted away)
